@@ -820,7 +820,16 @@ fn gen_data<T: HElem>(rng: &mut Rng, n: usize, class: usize) -> (Vec<T>, &'stati
             4 => ((0..n).map(|_| fi(off + if rng.chance(0.8) { 500 } else { rng.range(0, 1000) })).collect(), "heavy ties (zero IQR)"),
             5 => ((0..n).map(|_| fi(if nonneg { rng.range(0, 30000) } else { rng.range(-1_000_000, 1_000_000) })).collect(), "wide"),
             6 => ((0..n).map(|i| fi(off + (i as i64 % 7) * 37)).collect(), "7 levels"),
-            7 => ((0..n).map(|_| fi(off + (rng.normal() * 100.0) as i64 + 400)).collect(), "rounded normal"),
+            7 => {
+                if rng.chance(0.5) {
+                    ((0..n).map(|_| fi(off + (rng.normal() * 100.0) as i64 + 400)).collect(), "rounded normal")
+                } else {
+                    // two or three adjacent heavy levels plus a few values elsewhere: a small POSITIVE inter-quartile range
+                    let base = off + rng.range(3, 200);
+                    let lv = 2 + rng.range(0, 2);
+                    ((0..n).map(|_| fi(if rng.chance(0.9) { base + rng.range(0, lv) } else { off + rng.range(0, 400) })).collect(), "adjacent heavy levels (inter-quartile range 1 or 2)")
+                }
+            }
             _ => {
                 // 64-bit data spanning a large part of the type; max + range (>= any bin width) and twice the range stay
                 // representable, as the property requires
@@ -935,6 +944,64 @@ fn main() {
             }
         });
         r.section("grids", r.args.n(5_000, 200_000), |_k, rng, acc| c13_grid(rng, acc));
+        // grids whose NUMBER OF CELLS does not fit a machine word (many axes, or a few axes with very many bins):
+        // shape, index and index_of are per-axis notions and must keep working
+        r.section("huge_grids", r.args.n(60, 1_500), |k, rng, acc| {
+            let (nd, nbins): (usize, Vec<usize>) = match k % 3 {
+                0 => {
+                    let nd = *rng.pick(&[40usize, 63, 64, 65, 70, 100]);
+                    (nd, (0..nd).map(|_| 2 + rng.below(2)).collect())
+                }
+                1 => (4, vec![65_536, 65_536, 65_536, 65_537]),
+                _ => {
+                    let nd = 5 + rng.below(4);
+                    (nd, (0..nd).map(|_| 1usize << (9 + rng.below(6))).collect())
+                }
+            };
+            // axis a: edges first_a, first_a + step_a, ... (nbins[a] + 1 edges)
+            let first: Vec<i64> = (0..nd).map(|_| rng.range(-5, 5)).collect();
+            let step: Vec<i64> = (0..nd).map(|_| 1 + rng.range(0, 3)).collect();
+            let grid = Grid::from((0..nd).map(|a| Bins::new(Edges::from((0..=nbins[a] as i64).map(|i| first[a] + i * step[a]).collect::<Vec<i64>>()))).collect::<Vec<_>>());
+            let cj = |what: String| J::obj(vec![("axes", J::u(nd)), ("bins_per_axis", J::s(format!("{:?}", &nbins[..nd.min(8)]))), ("what", J::s(what))]);
+            acc.eval();
+            match catch(|| (grid.ndim(), grid.shape())) {
+                Ok((d, sh)) if d == nd && sh == nbins => {}
+                other => {
+                    acc.violation("grid_shape", None, cj(format!("ndim / shape: {:?}", other.map(|x| (x.0, x.1.len())))));
+                    return;
+                }
+            }
+            for _ in 0..12 {
+                let idx: Vec<usize> = (0..nd).map(|a| match rng.below(4) { 0 => 0, 1 => nbins[a] - 1, _ => rng.below(nbins[a]) }).collect();
+                let pt: Vec<i64> = (0..nd).map(|a| first[a] + idx[a] as i64 * step[a] + if step[a] > 1 && rng.chance(0.5) { 1 } else { 0 }).collect();
+                acc.evals += 2;
+                match catch(|| grid.index_of(&Array1::from(pt.clone()))) {
+                    Ok(Some(found)) if found == idx => {}
+                    other => {
+                        acc.violation("grid_index_of", None, cj(format!("Grid::index_of(point inside cell {:?}...) = {:?}", &idx[..nd.min(6)], other.map(|o| o.map(|v| v[..nd.min(6)].to_vec())))));
+                        return;
+                    }
+                }
+                match catch(|| grid.index(&idx)) {
+                    Ok(rs) if rs.len() == nd && (0..nd).all(|a| rs[a].start == first[a] + idx[a] as i64 * step[a] && rs[a].end == first[a] + (idx[a] as i64 + 1) * step[a]) => {}
+                    other => {
+                        acc.violation("grid_index", None, cj(format!("Grid::index({:?}...) = {:?}", &idx[..nd.min(6)], other.map(|v| v.len()))));
+                        return;
+                    }
+                }
+                // a point outside on one axis is in no cell
+                let mut out = pt.clone();
+                let a = rng.below(nd);
+                out[a] = if rng.chance(0.5) { first[a] - 1 } else { first[a] + nbins[a] as i64 * step[a] };
+                acc.eval();
+                if catch(|| grid.index_of(&Array1::from(out.clone()))) != Ok(None) {
+                    acc.violation("grid_index_of", None, cj(format!("a point outside axis {} was given a cell", a)));
+                    return;
+                }
+            }
+            acc.nontrivial(h64(&(nd, &nbins, &first, &step)));
+            acc.sample(|| cj("sample".into()));
+        });
         // long edge collections: every ordered PAIR of probes on one object (the second answer must not depend on the first)
         r.section("long_edges_pairs", r.args.n(300, 10_000), |_k, rng, acc| {
             let many = rng.chance(0.2);
